@@ -72,3 +72,23 @@ M("c01-mass-dx2", "C01", "config/defaults.py", 'data["mesh"]["density"] * data["
 M("c01-vector-merge-order", "C01", "io/utils.py", "**{components[c]: data[comp_list[c]] for c in range(ndim)}", "**{components[c]: data[comp_list[(c + (1 if ndim == 3 and key.startswith('B_') else 0)) % ndim]] for c in range(ndim)}", "B components rotated when assembled")
 M("c01-grav-header", "C01", "io/grav.py", '        self.offsets["i"] += 4\n        self.offsets["n"] += 4', '        self.offsets["i"] += 4\n        self.offsets["n"] += 4 if info["ndim"] == 3 else 5', "gravity header miscounted for ndim < 3")
 M("c01-level-dx", "C01", "io/amr.py", "self.dxcell = 0.5 ** (ilevel + 1)", "self.dxcell = 0.5 ** (ilevel + 1) if ilevel < 6 else 0.5 ** ilevel", "cell size wrong from level 7 on")
+
+# ---------------------------------------------------------------- C14
+M("c14-four-header-records", "C14", "io/part.py", "for i in range(5):", "for i in range(4 if info['ndim'] == 1 else 5):", "one header record too few skipped for 1-D outputs")
+M("c14-no-atleast2d", "C14", "io/sink.py", 'sink_data = np.atleast_2d(np.loadtxt(sink_file, delimiter=",", skiprows=2))', 'sink_data = np.loadtxt(sink_file, delimiter=",", skiprows=2)\n            if sink_data.ndim == 1:\n                sink_data = sink_data.reshape(-1, 1)', "single-sink file read as a column")
+M("c13-byte-as-int", "C13", "io/part.py", '                self.offsets[item["type"]] += nparticles\n                self.offsets["n"] += 1', '                self.offsets["i" if item["type"] == "b" else item["type"]] += nparticles\n                self.offsets["n"] += 1', "skipped byte columns advance the integer counter")
+M("c14-sortby-wrong-group", "C14", "io/loader.py", "                if group in out:\n                    out[group].sortby(key)", "                if group in out:\n                    out[group].sortby(key if group != 'part' or len(out[group][key]) < 4 else np.argsort(out[group][key].values[::-1]))", "particles sorted with a wrong permutation when there are >= 4")
+M("c14-sink-legacy-scaled", "C14", "io/sink.py", '                    unit_list.append(1.0 * ureg(u.replace("[", "").replace("]", "")))', '                    unit_list.append((l.magnitude if "cm" in u and "/" not in u else 1.0) * ureg(u.replace("[", "").replace("]", "")))', "legacy [cm] columns wrongly scaled by the code length")
+M("c14-nparticles-last", "C14", "io/part.py", '        info["nparticles"] += nparticles', '        info["nparticles"] = max(info["nparticles"], nparticles) if nparticles < 2 else info["nparticles"] + nparticles', "metadata particle count wrong when a rank holds one particle")
+M("c14-empty-sink-none", "C14", "io/sink.py", "            # This is an empty sink file\n            return sink", "            # This is an empty sink file\n            return", "empty sink file gives no group")
+M("c14-sink-time-unit", "C14", "io/sink.py", '        t = units["time"]  # noqa: F841', '        t = units["time"] * 1.0 if meta["ndim"] == 3 else units["length"] / units["velocity"] * 1.0000001  # noqa: F841', "time unit slightly off in 1-D/2-D")
+
+# ---------------------------------------------------------------- C13
+M("c13-skip-ncache-1", "C13", "io/reader.py", '                self.offsets[item["type"]] += ncache\n                self.offsets["n"] += 1', '                self.offsets[item["type"]] += ncache - (1 if ncache > 5 else 0)\n                self.offsets["n"] += 1', "skip branch one value short for larger cache lines")
+M("c13-skip-no-record", "C13", "io/reader.py", '                self.offsets[item["type"]] += ncache\n                self.offsets["n"] += 1', '                self.offsets[item["type"]] += ncache', "skip branch forgets the record markers")
+M("c13-merge-any", "C13", "io/utils.py", "if all([item in data for item in comp_list]):", "if any([item in data for item in comp_list[1:]]) and all([item in data for item in comp_list[:2]]):", "vector assembled when only x and y are present in 3-D")
+M("c13-stepover-read-only", "C13", "io/reader.py", '        self.offsets["d"] += ncache * twotondim * len(self.variables)\n        self.offsets["n"] += twotondim * len(self.variables)', '        nv = len([v for v in self.variables.values() if v["read"]]) or len(self.variables)\n        self.offsets["d"] += ncache * twotondim * nv\n        self.offsets["n"] += twotondim * nv', "step_over counts only the variables being read")
+M("c13-list-select-extra", "C13", "io/reader.py", "            for key in select:\n                read[key] = True", "            for key in select:\n                read[key] = True\n            if 'density' in read and 'pressure' in read and read['pressure']:\n                read['density'] = True", "asking for pressure also returns density")
+M("c13-group-off-ignored", "C13", "io/sink.py", "        if select is False:\n            return\n        sink = Datagroup()", "        if select is False and meta['ndim'] < 3:\n            return\n        sink = Datagroup()", "sinks loaded in 3-D although switched off")
+M("c13-grav-exists", "C13", "io/grav.py", "        if not os.path.exists(fname):\n            return", "        if not os.path.exists(fname):\n            if meta['ncpu'] > 1:\n                return", "missing gravity files only tolerated for multi-rank outputs")
+M("c13-amr-level-skip", "C13", "io/amr.py", '        if self.variables["level"]["read"]:', '        if self.variables["level"]["read"] or self.variables["dx"]["read"] is False:', "level buffer written although not requested (crash or junk)")
